@@ -19,14 +19,20 @@ import (
 )
 
 const Rule = "cases = (register kinds: u unordered, s stable, sorted with comparator a/d = -1,0,+1 ascending/descending, b = a-b, " +
-	"c = 7*(a-b), e = b-a; shuffle script; op list) from VERIF_SEED over universes of 4-40 ints: New(vals...)/Add/Remove (also " +
+	"c = 7*(a-b), e = b-a; shuffle script; op list) from VERIF_SEED over universes of 4-40 ints: New(vals...)/" +
+	"NewWithFormat/NewStableWithFormat/NewSortedWithFormat(format, vals...) with the custom formats A <a;b>, B [a|b], N 2:(a b)/Add/Remove (also " +
 	"repeating a value inside one call)/RemoveAll/Contains/Size/All/String/Equal/IsSubset/IsSuperset (also of a set with itself)/" +
 	"Clone/CloneEmpty/AnyMatch/AllMatch/FirstMatch/SelectMatch/PartitionMatch/Union/Intersection/Difference with 0-6 operands of " +
 	"any mix (the receiver itself, the same operand twice), Powerset n<=7, Partitions n<=6, and edits of every member of a " +
 	"Powerset/Partitions result; aliasing cases edit every result (Clone/Union/Intersection/Difference/SelectMatch/PartitionMatch) " +
 	"and then the operands, at sizes 3-17; every register other than the destination is compared with its String() snapshot " +
-	"after every op. non-trivial = the history contains a set-algebra call whose receiver and operands use at least two " +
-	"different implementations and are not all empty, or an effective Remove followed by a later observation of that register, " +
+	"after every op; String() of every set object an op creates or changes is parsed in the format the object must carry " +
+	"(the constructor's; for Clone/CloneEmpty/Union/Intersection/Difference/SelectMatch/PartitionMatch the receiver's, whatever " +
+	"the operands carry) and compared with the mathematical set and the required order; Powerset(s).String()/Partitions(s).String() " +
+	"(powerstr/partstr) must show every member in the format of s; cases with src=global run on the package's own random " +
+	"source (no scripted shuffle) and contain only operations whose canonical output does not depend on the iteration " +
+	"order of an unordered set. non-trivial = the history contains a set-algebra call whose receiver and operands use at least two " +
+	"different implementations or carry at least two different formats, and are not all empty, or an effective Remove followed by a later observation of that register, " +
 	"or a sorted insert at a non-final position, or Powerset/Partitions with n>=3; distinct = distinct (header, op list)"
 
 // ---------------------------------------------------------------- scripted shuffle source
@@ -48,12 +54,16 @@ type oreg struct {
 	kind  byte         // 'u' unordered, 's' stable, sorted ascending: 'a' (-1/0/+1) 'b' (a-b) 'c' (7*(a-b)), descending: 'd' (+1/0/-1) 'e' (b-a)
 	m     map[int]bool // the mathematical set
 	order []int        // stable: insertion order (meaningless for the other kinds)
+	fmt   byte         // the format String() must use: '-' default {a, b}; 'A' <a;b>; 'B' [a|b]; 'N' 2:(a b)
 }
 
-func newOreg(kind byte) *oreg { return &oreg{kind: kind, m: map[int]bool{}} }
+func newOreg(kind byte) *oreg { return &oreg{kind: kind, m: map[int]bool{}, fmt: '-'} }
+
+// newOregF: an empty oracle register whose String() must use format f
+func newOregF(kind, f byte) *oreg { return &oreg{kind: kind, m: map[int]bool{}, fmt: f} }
 
 func (o *oreg) clone() *oreg {
-	c := newOreg(o.kind)
+	c := newOregF(o.kind, o.fmt)
 	for k := range o.m {
 		c.m[k] = true
 	}
@@ -144,6 +154,115 @@ func newSet(kind byte, vals ...int) set.Set[int] {
 		return set.NewSorted[int](cmpRevSub, vals...)
 	}
 	return nil
+}
+
+// ---------------------------------------------------------------- custom formats
+
+const formatLetters = "ABN"
+
+func joinInts(xs []int, sep string) string {
+	ss := make([]string, len(xs))
+	for i, x := range xs {
+		ss[i] = strconv.Itoa(x)
+	}
+	return strings.Join(ss, sep)
+}
+
+// the StringFormat values handed to New…WithFormat
+func formatFunc(f byte) set.StringFormat[int] {
+	switch f {
+	case 'A':
+		return func(ms []int) string { return "<" + joinInts(ms, ";") + ">" }
+	case 'B':
+		return func(ms []int) string { return "[" + joinInts(ms, "|") + "]" }
+	case 'N':
+		return func(ms []int) string { return strconv.Itoa(len(ms)) + ":(" + joinInts(ms, " ") + ")" }
+	}
+	return nil
+}
+
+func newSetF(kind, f byte, vals ...int) set.Set[int] {
+	ff := formatFunc(f)
+	if ff == nil {
+		return nil
+	}
+	switch kind {
+	case 'u':
+		return set.NewWithFormat[int](eqInt, ff, vals...)
+	case 's':
+		return set.NewStableWithFormat[int](eqInt, ff, vals...)
+	case 'a':
+		return set.NewSortedWithFormat[int](cmpAsc, ff, vals...)
+	case 'd':
+		return set.NewSortedWithFormat[int](cmpDesc, ff, vals...)
+	case 'b':
+		return set.NewSortedWithFormat[int](cmpSub, ff, vals...)
+	case 'c':
+		return set.NewSortedWithFormat[int](cmpSub7, ff, vals...)
+	case 'e':
+		return set.NewSortedWithFormat[int](cmpRevSub, ff, vals...)
+	}
+	return nil
+}
+
+// parseStr reads String() output back (the oracle's own reader of the four formats, written from their
+// description, not from formatFunc): the members in the order printed, false when str is not in format f.
+func parseStr(f byte, str string) ([]int, bool) {
+	var open, sep, cls string
+	switch f {
+	case '-':
+		open, sep, cls = "{", ", ", "}"
+	case 'A':
+		open, sep, cls = "<", ";", ">"
+	case 'B':
+		open, sep, cls = "[", "|", "]"
+	case 'N':
+		k := strings.Index(str, ":")
+		if k <= 0 {
+			return nil, false
+		}
+		n, err := strconv.Atoi(str[:k])
+		if err != nil || n < 0 || strconv.Itoa(n) != str[:k] {
+			return nil, false
+		}
+		xs, ok := parseBody(str[k+1:], "(", " ", ")")
+		return xs, ok && len(xs) == n
+	default:
+		return nil, false
+	}
+	return parseBody(str, open, sep, cls)
+}
+
+func parseBody(str, open, sep, cls string) ([]int, bool) {
+	if len(str) < len(open)+len(cls) || !strings.HasPrefix(str, open) || !strings.HasSuffix(str, cls) {
+		return nil, false
+	}
+	body := str[len(open) : len(str)-len(cls)]
+	if body == "" {
+		return nil, true
+	}
+	var xs []int
+	for _, w := range strings.Split(body, sep) {
+		v, err := strconv.Atoi(w)
+		if err != nil || strconv.Itoa(v) != w {
+			return nil, false
+		}
+		xs = append(xs, v)
+	}
+	return xs, true
+}
+
+// openToken: the text with which a printed member set in format f starts being recognisable
+func openToken(f byte) string {
+	switch f {
+	case 'A':
+		return "<"
+	case 'B':
+		return "["
+	case 'N':
+		return ":("
+	}
+	return "{"
 }
 
 // the predicates of the match operations
@@ -308,7 +427,20 @@ func execCase(c hx.Case, pub *published) {
 			runtime.Goexit()
 		}
 	}
-	opMode := func() { stopIfAbandoned(); set.VerifSetShuffleSource(script) }
+	// src=global: the operations run on the package's own generator (rand.New(globalSource{})); such a case
+	// only contains operations whose canonical output does not depend on what that generator yields
+	globalSrc := hx.HeaderGet(c.Header, "src") == "global"
+	if globalSrc {
+		tags["src=global"] = true
+	}
+	opMode := func() {
+		stopIfAbandoned()
+		if globalSrc {
+			set.VerifSetShuffleDefault()
+		} else {
+			set.VerifSetShuffleSource(script)
+		}
+	}
 	checkMode := func() { stopIfAbandoned(); set.VerifSetShuffleSource(checkSrc) }
 
 	regs := make([]set.Set[int], len(kinds))
@@ -347,6 +479,19 @@ func execCase(c hx.Case, pub *published) {
 		}
 		if exp := o.expectedOrder(); exp != nil && !sameInts(ms, exp) {
 			bad(i, "%s (kind %c) iterates as %v, required order is %v", what, o.kind, ms, exp)
+		}
+		// String(): in the format this object must carry, over the same members (in the required order)
+		str := s.String()
+		got, okFmt := parseStr(o.fmt, str)
+		if !okFmt {
+			bad(i, "%s: String() = %q is not in format %c", what, str, o.fmt)
+		} else if !sameInts(sortedCopy(got), o.sortedAsc()) {
+			bad(i, "%s: String() = %q, the set is %v", what, str, o.sortedAsc())
+		} else if exp := o.expectedOrder(); exp != nil && !sameInts(got, exp) {
+			bad(i, "%s: String() of kind %c = %q, required order %v", what, o.kind, str, exp)
+		}
+		if o.fmt != '-' {
+			tags["format="+string(o.fmt)] = true
 		}
 	}
 	removedHit := map[int]bool{} // registers with an effective Remove not yet observed
@@ -506,20 +651,14 @@ func execCase(c hx.Case, pub *published) {
 				case "string":
 					str := s.String()
 					out = "ok " + str
-					// format.go: {a, b, c} over the members as stored
-					var got []int
-					body := strings.TrimSuffix(strings.TrimPrefix(str, "{"), "}")
-					okFmt := strings.HasPrefix(str, "{") && strings.HasSuffix(str, "}")
-					if body != "" {
-						for _, w := range strings.Split(body, ", ") {
-							v, err := strconv.Atoi(w)
-							if err != nil {
-								okFmt = false
-							}
-							got = append(got, v)
-						}
+					// format.go: {a, b, c} over the members as stored — or the format the object was constructed with
+					got, okFmt := parseStr(o.fmt, str)
+					if o.fmt != '-' {
+						tags["string-custom-format"] = true
 					}
-					if !okFmt || !sameInts(sortedCopy(got), o.sortedAsc()) {
+					if !okFmt {
+						bad(i, "String() = %q is not in format %c", str, o.fmt)
+					} else if !sameInts(sortedCopy(got), o.sortedAsc()) {
 						bad(i, "String() = %q, the set is %v", str, o.sortedAsc())
 					} else if exp := o.expectedOrder(); exp != nil && !sameInts(got, exp) {
 						bad(i, "String() of kind %c = %q, required order %v", o.kind, str, exp)
@@ -591,13 +730,45 @@ func execCase(c hx.Case, pub *published) {
 					o = orc[a].clone()
 				} else {
 					t = regs[a].CloneEmpty()
-					o = newOreg(orc[a].kind)
+					o = newOregF(orc[a].kind, orc[a].fmt)
 				}
 				regs[d], orc[d] = t, o
 				out = "ok"
 				agree(i, f[0]+" result", t, o)
 				delete(removedHit, d)
 				tags[f[0]] = true
+				if o.fmt != '-' {
+					tags[f[0]+"-custom-format"] = true
+				}
+			case "newf":
+				// New…WithFormat(callback, format, vals...)
+				if len(f) < 4 || len(f[2]) != 1 || len(f[3]) != 1 {
+					return
+				}
+				d := reg(f[1])
+				vs, ok := ints(f[4:])
+				if d < 0 || !ok || newSet(f[2][0]) == nil || formatFunc(f[3][0]) == nil {
+					return
+				}
+				opMode()
+				s := newSetF(f[2][0], f[3][0], vs...)
+				o := newOregF(f[2][0], f[3][0])
+				for _, v := range vs {
+					o.add(v)
+				}
+				dst = d
+				regs[d], orc[d] = s, o
+				delete(removedHit, d)
+				out = "ok"
+				agree(i, "New…WithFormat result", s, o)
+				switch f[2][0] {
+				case 'u':
+					tags["NewWithFormat"] = true
+				case 's':
+					tags["NewStableWithFormat"] = true
+				default:
+					tags["NewSortedWithFormat"] = true
+				}
 			case "new":
 				if len(f) < 3 || len(f[2]) != 1 {
 					return
@@ -704,7 +875,10 @@ func execCase(c hx.Case, pub *published) {
 				if recv.kind != 's' {
 					src = recv.sortedAsc()
 				}
-				om, ou := newOreg(recv.kind), newOreg(recv.kind)
+				om, ou := newOregF(recv.kind, recv.fmt), newOregF(recv.kind, recv.fmt)
+				if recv.fmt != '-' {
+					tags[f[0]+"-custom-format"] = true
+				}
 				for _, v := range src {
 					if p(v) {
 						om.add(v)
@@ -847,6 +1021,7 @@ func execCase(c hx.Case, pub *published) {
 				var ops []set.Set[int]
 				var oops []*oreg
 				kindsSeen := map[byte]bool{orc[a].kind: true}
+				fmtsSeen := map[byte]bool{orc[a].fmt: true}
 				total := len(orc[a].m)
 				for _, w := range f[3:] {
 					k := reg(w)
@@ -856,6 +1031,7 @@ func execCase(c hx.Case, pub *published) {
 					ops = append(ops, regs[k])
 					oops = append(oops, orc[k])
 					kindsSeen[orc[k].kind] = true
+					fmtsSeen[orc[k].fmt] = true
 					total += len(orc[k].m)
 					if k == a {
 						tags["receiver-as-operand"] = true
@@ -872,7 +1048,7 @@ func execCase(c hx.Case, pub *published) {
 					seenArg[w] = true
 				}
 				recv := orc[a]
-				o := newOreg(recv.kind)
+				o := newOregF(recv.kind, recv.fmt) // the result carries the receiver's format
 				// group[v] = which argument contributed v first (0 = receiver), for the stable order check
 				group := map[int]int{}
 				opMode()
@@ -979,6 +1155,59 @@ func execCase(c hx.Case, pub *published) {
 					tags["mixed-algebra"] = true
 					nontrivial = true
 				}
+				if len(fmtsSeen) >= 2 && total > 0 {
+					tags["mixed-format-algebra"] = true
+					nontrivial = true
+				}
+				if recv.fmt != '-' {
+					tags["algebra-on-custom-format-receiver"] = true
+				}
+			case "powerstr", "partstr":
+				// Powerset(s).String() / Partitions(s).String(): the containers are made by New (default format,
+				// %v of a member = the member's own String()); every member subset / block must be in the format of s
+				if len(f) != 2 {
+					return
+				}
+				k := reg(f[1])
+				if k < 0 {
+					return
+				}
+				o := orc[k]
+				n := len(o.m)
+				opMode()
+				var str string
+				wantSets, wantContainers := 0, 0
+				if f[0] == "powerstr" {
+					str = set.Powerset[int](regs[k]).String()
+					wantSets, wantContainers = 1<<n, 1
+				} else {
+					str = set.Partitions[int](regs[k]).String()
+					if n+1 < len(bell) {
+						// Bell(n) partitions; their blocks number Bell(n+1) - Bell(n) in total
+						wantSets, wantContainers = bell[n+1]-bell[n], 1+bell[n]
+					} else {
+						wantSets = -1
+					}
+				}
+				out = "ok " + str
+				if wantSets >= 0 {
+					// count how many member sets are printed in the format of s, and how many containers in the default one
+					gotSets := strings.Count(str, openToken(o.fmt))
+					gotContainers := strings.Count(str, "{")
+					if o.fmt == '-' {
+						gotSets -= wantContainers
+						gotContainers = wantContainers
+					}
+					if gotSets != wantSets || gotContainers != wantContainers || !strings.HasPrefix(str, "{") || !strings.HasSuffix(str, "}") {
+						bad(i, "%s of %d members in format %c prints %d member sets in that format and %d containers; want %d and %d: %s",
+							f[0], n, o.fmt, gotSets, gotContainers, wantSets, wantContainers, str)
+					}
+				}
+				tags[f[0]] = true
+				if o.fmt != '-' {
+					tags[f[0]+"-custom-format"] = true
+				}
+				observe(k)
 			case "powerset", "partitions":
 				if len(f) != 2 {
 					return
@@ -1127,6 +1356,10 @@ type gen struct {
 	sets  []map[int]bool // the generator's own bookkeeping, only to choose interesting arguments
 	univ  int
 	ops   []string
+	// global: the case will run on the package's own random source, so it must not contain an operation whose
+	// canonical output depends on the iteration order of an unordered set (Union of an unordered operand into an
+	// unordered or stable receiver fixes that order in the result; powerstr/partstr print stored orders)
+	global bool
 }
 
 func (g *gen) emit(format string, a ...any) { g.ops = append(g.ops, fmt.Sprintf(format, a...)) }
@@ -1250,6 +1483,8 @@ func (g *gen) step(maxPow, maxPart int) {
 			g.sets[d][v] = true
 		}
 		g.emit("new %d %c%s", d, kd, join(vs))
+	case x < 81:
+		g.newf(r.Intn(n))
 	case x < 92:
 		d := r.Intn(n)
 		nops := r.Range(0, 4)
@@ -1268,6 +1503,14 @@ func (g *gen) step(maxPow, maxPart int) {
 		}
 		res := copySet(g.sets[k])
 		name := hx.Pick(r, []string{"union", "inter", "diff"})
+		if g.global && name == "union" && (g.kinds[k] == 'u' || g.kinds[k] == 's') {
+			for _, a := range args {
+				if g.kinds[a] == 'u' {
+					name = hx.Pick(r, []string{"inter", "diff"})
+					break
+				}
+			}
+		}
 		for _, a := range args {
 			switch name {
 			case "union":
@@ -1294,6 +1537,10 @@ func (g *gen) step(maxPow, maxPart int) {
 		pred := hx.Pick(r, preds)
 		pf := parsePred(pred)
 		switch {
+		case y < 1 && len(g.sets[k]) <= maxPow && !g.global && r.Bool():
+			g.emit("powerstr %d", k)
+		case y >= 3 && y < 4 && len(g.sets[k]) <= maxPart && !g.global && r.Bool():
+			g.emit("partstr %d", k)
 		case y < 2 && len(g.sets[k]) <= maxPow:
 			g.emit("powerset %d", k)
 		case y < 3 && len(g.sets[k]) <= maxPow:
@@ -1333,15 +1580,39 @@ func (g *gen) step(maxPow, maxPart int) {
 	}
 }
 
-func randomCase(r *hx.Rand, nregs, univ, length, maxPow, maxPart int) hx.Case {
-	g := &gen{r: r, univ: univ}
+// newf: New…WithFormat into register d — a kind, a custom format, initial values (also repeated ones)
+func (g *gen) newf(d int) {
+	r := g.r
+	kd := kindLetters[r.Intn(len(kindLetters))]
+	g.sets[d] = map[int]bool{}
+	g.kinds[d] = kd
+	vs := g.vals(0, 4)
+	if len(vs) > 0 && r.Chance(1, 3) {
+		vs = append(vs, vs[0])
+	}
+	for _, v := range vs {
+		g.sets[d][v] = true
+	}
+	g.emit("newf %d %c %c%s", d, kd, formatLetters[r.Intn(len(formatLetters))], join(vs))
+}
+
+// randomCase: global = run on the package's own random source (header src=global)
+func randomCase(r *hx.Rand, nregs, univ, length, maxPow, maxPart int, global bool) hx.Case {
+	g := &gen{r: r, univ: univ, global: global}
 	for i := 0; i < nregs; i++ {
 		g.kinds = append(g.kinds, kindLetters[r.Intn(len(kindLetters))])
 		g.sets = append(g.sets, map[int]bool{})
 	}
 	hdr := fmt.Sprintf("comp=reg sh=%d regs=%s", uint32(r.U64()), string(g.kinds))
+	if global {
+		hdr += " src=global"
+	}
 	// start by putting something into most registers so algebra has material early
 	for i := 0; i < nregs; i++ {
+		if r.Chance(1, 4) {
+			g.newf(i) // a register made by New…WithFormat
+			continue
+		}
 		if r.Chance(3, 4) {
 			vs := g.vals(1, 4)
 			for _, v := range vs {
@@ -1454,6 +1725,104 @@ func aliasCase(r *hx.Rand) hx.Case {
 	return hx.Case{Header: fmt.Sprintf("comp=reg sh=%d regs=%s", uint32(r.U64()), string(kinds)), Ops: ops}
 }
 
+// formatCase: the format field.  Registers 0-2 are made by NewWithFormat, NewStableWithFormat and
+// NewSortedWithFormat (one custom format each, initial values), register 3 by a plain constructor (default
+// format), 4-6 take results.  Every round runs a Clone/CloneEmpty/set-algebra/match operation whose receiver and
+// operands carry different formats, prints String() of everything, edits result and operands and prints again.
+func formatCase(r *hx.Rand) hx.Case {
+	const nregs = 7
+	sortedKinds := "adbce"
+	kinds := []byte{'u', 's', sortedKinds[r.Intn(len(sortedKinds))], kindLetters[r.Intn(len(kindLetters))], 'u', 's', 'a'}
+	// which of the first three registers is which implementation varies
+	for i := 2; i > 0; i-- {
+		j := r.Intn(i + 1)
+		kinds[i], kinds[j] = kinds[j], kinds[i]
+	}
+	var ops []string
+	emit := func(format string, a ...any) { ops = append(ops, fmt.Sprintf(format, a...)) }
+	val := func() int { return r.Intn(12) - 3 }
+	vals := func(lo, hi int) []int {
+		xs := make([]int, r.Range(lo, hi))
+		for i := range xs {
+			xs[i] = val()
+		}
+		return xs
+	}
+	fl := []byte(formatLetters)
+	for i := len(fl) - 1; i > 0; i-- {
+		j := r.Intn(i + 1)
+		fl[i], fl[j] = fl[j], fl[i]
+	}
+	for i := 0; i < 3; i++ {
+		vs := vals(0, 5)
+		if len(vs) > 0 && r.Bool() {
+			vs = append(vs, vs[0])
+		}
+		emit("newf %d %c %c%s", i, kinds[i], fl[i], join(vs))
+	}
+	emit("add 3%s", join(vals(1, 4)))
+	observeAll := func() {
+		for i := 0; i < nregs; i++ {
+			emit("string %d", i)
+		}
+	}
+	observeAll()
+	for round := r.Range(3, 7); round > 0; round-- {
+		a, b, c := r.Intn(4), r.Intn(4), r.Intn(nregs)
+		d := 4 + r.Intn(3)
+		pred := hx.Pick(r, preds)
+		switch r.Intn(10) {
+		case 0:
+			emit("clone %d %d", d, a)
+		case 1:
+			emit("cloneempty %d %d", d, a)
+			emit("add %d%s", d, join(vals(1, 3)))
+		case 2, 3:
+			emit("union %d %d %d %d", d, a, b, c)
+		case 4:
+			emit("inter %d %d %d %d", d, a, b, c)
+		case 5:
+			emit("diff %d %d %d %d", d, a, b, c)
+		case 6:
+			emit("select %d %d %s", d, a, pred)
+		case 7:
+			emit("partition %d %d %d %s", d, 4+r.Intn(3), a, pred)
+		case 8:
+			emit("%s %d %d", hx.Pick(r, []string{"union", "inter", "diff"}), d, a) // no operands
+		default:
+			// a result (custom format) as receiver, with operands of other formats
+			emit("union %d %d %d", d, a, b)
+			emit("%s %d %d %d %d", hx.Pick(r, []string{"union", "inter", "diff"}), 4+r.Intn(3), d, c, 3)
+		}
+		observeAll()
+		emit("add %d %d %d", d, val(), val())
+		emit("remove %d %d", d, val())
+		emit("remove %d %d", a, val())
+		emit("add %d %d", a, val())
+		if r.Chance(1, 6) {
+			emit("removeall %d", d)
+			emit("add %d%s", d, join(vals(0, 3)))
+		}
+		if r.Chance(1, 5) {
+			// a register made with a custom format is overwritten by a plain constructor / the other way round
+			if r.Bool() {
+				emit("new %d %c%s", r.Intn(nregs), kindLetters[r.Intn(len(kindLetters))], join(vals(0, 3)))
+			} else {
+				emit("newf %d %c %c%s", 3+r.Intn(4), kindLetters[r.Intn(len(kindLetters))], fl[r.Intn(3)], join(vals(0, 3)))
+			}
+		}
+		observeAll()
+	}
+	// Powerset / Partitions of a set with a custom format: every member in that format
+	k := r.Intn(3)
+	emit("cloneempty 6 %d", k)
+	emit("add 6%s", join(vals(0, 4)))
+	emit("powerstr 6")
+	emit("partstr 6")
+	emit("string 6")
+	return hx.Case{Header: fmt.Sprintf("comp=reg sh=%d regs=%s", uint32(r.U64()), string(kinds)), Ops: ops}
+}
+
 // cmpMixCase: the same (or nearly the same) members in sets of every kind, in particular sorted sets with different
 // comparators (ascending/descending, normalised or not), then every pair in Equal/IsSubset/IsSuperset and the
 // set algebra with operands of other kinds.
@@ -1499,7 +1868,7 @@ func cmpMixCase(r *hx.Rand) hx.Case {
 }
 
 // enumCase: n elements of kind k, then powerset / partitions
-func enumCase(r *hx.Rand, kind byte, n int, what string) hx.Case {
+func enumCase(r *hx.Rand, kind byte, n int, what string, format byte) hx.Case {
 	perm := []int{}
 	for v := 0; v < n; v++ {
 		perm = append(perm, v*3-4)
@@ -1509,14 +1878,17 @@ func enumCase(r *hx.Rand, kind byte, n int, what string) hx.Case {
 		perm[i], perm[j] = perm[j], perm[i]
 	}
 	ops := []string{}
-	if n > 0 {
+	if format != '-' {
+		// the set is made by New…WithFormat with the values as initial values
+		ops = append(ops, fmt.Sprintf("newf 0 %c %c%s", kind, format, join(perm)))
+	} else if n > 0 {
 		ops = append(ops, "add 0"+join(perm))
 	}
 	ops = append(ops, what+" 0", "string 0", "size 0")
 	if what == "powerset" {
-		ops = append(ops, "powermut 0 99", "string 0", "powermut 0 -4", "string 0")
+		ops = append(ops, "powerstr 0", "powermut 0 99", "string 0", "powermut 0 -4", "string 0")
 	} else {
-		ops = append(ops, "partmut 0 99", "string 0", "partmut 0 -4", "string 0")
+		ops = append(ops, "partstr 0", "partmut 0 99", "string 0", "partmut 0 -4", "string 0")
 	}
 	return hx.Case{Header: fmt.Sprintf("comp=reg sh=%d regs=%c", uint32(r.U64()), kind), Ops: ops}
 }
@@ -1578,16 +1950,18 @@ func Main(run *hx.Run) {
 	}
 	// Powerset n<=7 and Partitions n<=6 for every implementation (quick: the large n once per kind)
 	re := run.R.Fork("enum")
-	for _, kind := range []byte(kindLetters) {
+	enumFormats := "-" + formatLetters
+	for ki, kind := range []byte(kindLetters) {
 		for n := 0; n <= 7; n++ {
 			reps := 1
 			if run.Thorough() {
 				reps = 4
 			}
 			for k := 0; k < reps; k++ {
-				do(enumCase(re, kind, n, "powerset"))
+				// the format rotates with kind, n and repetition: default, A, B, N
+				do(enumCase(re, kind, n, "powerset", enumFormats[(ki+n+k)%len(enumFormats)]))
 				if n <= 6 {
-					do(enumCase(re, kind, n, "partitions"))
+					do(enumCase(re, kind, n, "partitions", enumFormats[(ki+n+k+1)%len(enumFormats)]))
 				}
 			}
 		}
@@ -1602,7 +1976,17 @@ func Main(run *hx.Run) {
 			length = 300
 			univ = 40
 		}
-		do(randomCase(rr, rr.Range(2, 5), univ, length, 5, 4))
+		do(randomCase(rr, rr.Range(2, 5), univ, length, 5, 4, false))
+	}
+	// the format field: all three New…WithFormat constructors in every case, results with mixed-format operands
+	rf := run.R.Fork("format")
+	for k := run.Scale(80); k > 0; k-- {
+		do(formatCase(rf))
+	}
+	// the package's own random source (globalSource) instead of the scripted one, order-insensitive operations only
+	rg := run.R.Fork("global")
+	for k := run.Scale(60); k > 0; k-- {
+		do(randomCase(rg, rg.Range(2, 5), hx.Pick(rg, []int{4, 6, 8, 12}), rg.Range(8, 50), 5, 4, true))
 	}
 	// aliasing: edit results, re-observe operands and siblings, edit operands, re-observe results
 	ra := run.R.Fork("alias")
@@ -1663,9 +2047,36 @@ func Main(run *hx.Run) {
 				}
 			}
 		}
+		// (E4) the format field: every pair of implementations from {u,s,a} x {u,s,d} x every pair of formats (default,
+		// A, B, N) for receiver and operand x every pair of subsets of a 3-universe: both made by the constructor that
+		// the format calls for, then every operation that creates a set object, String() of each result
+		mk := func(d int, kind, f byte, vs []int) string {
+			if f == '-' {
+				return fmt.Sprintf("new %d %c%s", d, kind, join(vs))
+			}
+			return fmt.Sprintf("newf %d %c %c%s", d, kind, f, join(vs))
+		}
+		allFormats := "-" + formatLetters
+		for _, ka := range []byte("usa") {
+			for _, kb := range []byte("usd") {
+				for _, fa := range []byte(allFormats) {
+					for _, fb := range []byte(allFormats) {
+						for m := 0; m < 64; m++ {
+							ops := []string{mk(0, ka, fa, shuffled(rx, subsetOf(m&7, 3))), mk(1, kb, fb, shuffled(rx, subsetOf(m>>3, 3))),
+								"string 0", "string 1", "union 2 0 1", "inter 2 0 1", "diff 2 0 1", "union 2 1 0 0", "inter 2 1 0", "diff 2 1 0",
+								"clone 2 0", "add 2 7", "string 2", "cloneempty 2 1", "add 2 1 0", "string 2", "select 2 0 odd",
+								"partition 2 3 1 ge:1", "string 3", "union 3 2 0 1", "removeall 0", "string 0", "add 0 5", "string 0",
+								"powerstr 1", "partstr 0", "string 1"}
+							do(hx.Case{Header: fmt.Sprintf("comp=reg sh=%d regs=%c%c%c%c", uint32(rx.U64()), ka, kb, ka, kb), Ops: ops})
+						}
+					}
+				}
+			}
+		}
 		run.Stats.Extra["exhaustive_part"] = "per implementation: all Add/Remove/RemoveAll histories of length<=5 over 3 values and <=4 over 4 values; " +
 			"all pairs of implementations x all pairs of subsets of a 4-universe (Equal/IsSubset/IsSuperset/Union/Intersection/Difference, " +
 			"receiver also as operand, zero operands); all triples of implementations x all triples of subsets of a 3-universe; " +
-			"Powerset n<=7 and Partitions n<=6 for every implementation"
+			"Powerset n<=7 and Partitions n<=6 for every implementation; the format field: 3x3 implementations x 4x4 formats (default and the " +
+			"three custom ones, via New / New…WithFormat) x all pairs of subsets of a 3-universe through every set-creating operation"
 	}
 }
